@@ -186,7 +186,8 @@ Definition run_route (c impl : sexp) : sexp :=
               verdict "c01_selected_route_is_invoked_route" v_sel;
               verdict "c04_parameters_are_the_url_text" v_c04;
               verdict "c02_no_panic" (negb (Z.eqb i_class 2));
-              verdict "c02_outcome_exact" v_c02 ];
+              verdict "c02_outcome_exact" v_c02;
+              verdict "c19_same_answer_with_tracing_flipped" (sx_bool (sx_nth 7 impl)) ];
         A (L cls);
         Lst [ verdict "wf_invoked_route" wf_inv; verdict "wf_best_service" wf_best;
               verdict "jsr_tokens_agree_on_invoked" (match t_router t, inv with
@@ -474,6 +475,9 @@ Definition run_disp (c impl : sexp) : sexp :=
         let h := fst (fst x) in let io := snd x in
         encoding_labelled (sx_request (sx_nth 1 h)) (sx_str (sx_nth 2 h))
                           (impl_hvalues H_ContentEncoding (sx_nth 2 io)) (sx_bool (sx_nth 4 io))) per in
+  (* "... otherwise the body is exactly the bytes written": the body the client decodes is the concatenation of
+     what the scripts of this configuration wrote for this request (computed by the model), byte for byte *)
+  let v_c07_body := forallb (fun x => sexp_eqb (sx_nth 3 (res_obs (snd (fst x)))) (sx_nth 3 (snd x))) per in
   let v_c07_conc := forallb (fun x =>
         let h := fst x in let io := snd x in
         encoding_labelled (sx_request (sx_nth 1 h)) (sx_str (sx_nth 2 h))
@@ -534,10 +538,12 @@ Definition run_disp (c impl : sexp) : sexp :=
               verdict "c06_concurrent_same_as_alone" v_c19_conc;
               verdict "c07_encoding_enabled_and_wanted" v_c07;
               verdict "c07_labelled_and_decodes" v_c07_label;
+              verdict "c07_body_is_exactly_what_was_written" v_c07_body;
               verdict "c07_concurrent_responses_decode" v_c07_conc;
               verdict "c10_panic_does_not_escape" v_c10_noescape;
               verdict "c10_recover_handler_at_most_once" v_c10_once;
               verdict "c10_compressors_released_once" v_c10_ledger;
+              verdict "c13_every_acquired_compressor_released_once" v_c10_ledger;
               verdict "c10_body_complete" v_c10_decodes;
               verdict "c10_container_usable_afterwards" (sx_bool (sx_nth 4 impl));
               verdict "c10_following_requests_served_as_fresh" v_c19_hist;
@@ -592,7 +598,8 @@ Definition run_resp (c impl : sexp) : sexp :=
         A (L cls);
         Lst [ verdict "wf_history" wf; verdict "writer_fails" failing; verdict "encoded" comp;
               verdict "through_container" (Z.eqb (sx_int (sx_nth 4 c)) 1);
-              verdict "plain_handler_with_filter" (Z.eqb (sx_int (sx_nth 4 c)) 2) ] ].
+              verdict "plain_handler_with_filter" (Z.eqb (sx_int (sx_nth 4 c)) 2);
+              verdict "behind_a_middleware_filter" (Z.eqb (sx_int (sx_nth 4 c)) 3) ] ].
 
 (* ---- domain "pool" (C13) ----
    case: (oracles provider cap mode ops clients rounds); impl: (trace blocked handed-out-while-held released-unknown wrong-bodies) *)
@@ -824,10 +831,13 @@ Definition run_neg (c impl : sexp) : sexp :=
               verdict "c05_admitted_never_406" (implb (scope && admitted) written);
               verdict "c05_best_for_accept" (implb (scope && admitted)
                                                    (match possible with [k] => written && str_eqb ct0 k | _ => false end));
-              verdict "c05_body_decodes" (implb written (forallb (fun d => Z.eqb d 1) i_dec)) ];
+              verdict "c05_body_decodes" (implb written (forallb (fun d => Z.eqb d 1) i_dec));
+              (* outside the premise the answer may depend on map iteration order (C05's subject), so only inside it *)
+              verdict "c19_same_answers_with_tracing_flipped" (implb premise (sx_bool (sx_nth 4 impl))) ];
         A (L cls);
         Lst [ verdict "in_premise" scope; verdict "admitted" admitted;
-              verdict "several_ranges" (Nat.ltb 1 (List.length (split comma accept))) ] ].
+              verdict "several_ranges" (Nat.ltb 1 (List.length (split comma accept)));
+              verdict "content_type_preset_on_response" (negb (str_eqb (sx_str (sx_nth 6 c)) [])) ] ].
 
 Definition run_case (c impl : sexp) : sexp :=
   let dom := sx_str (sx_nth 0 c) in
